@@ -40,6 +40,10 @@ type c02Block struct {
 }
 
 func runC02(c *fw.Case) {
+	if c.Index%16 == 11 {
+		longHorizonProbe(c, "C02")
+		return
+	}
 	mc := gen.Minters(c.R, gen.MintDenom(c.R), 36)
 	horizon := mc.Horizon(c.R)
 	bounds := mc.Schedule.Boundaries(horizon, 40)
